@@ -499,6 +499,7 @@ func c01Conflicts(c *Ctx, s *scanShape) {
 		orders                                map[string]bool
 		retTrue, retFalse                     bool
 		delConflict, setConflict, collectBoth bool
+		recorded                              map[string]bool
 		otherEffects                          []string
 	}
 	var infos []pathInfo
@@ -536,6 +537,15 @@ func c01Conflicts(c *Ctx, s *scanShape) {
 				case *ssa.MapUpdate:
 					if isMap(x.Map, s.conflicts) && x.Key == ssa.Value(nameParam) {
 						pi.setConflict = true
+					} else if kd, ok := directErrorRecord(c, s, x, false); ok {
+						// the conflict recorded in place (no collector closure): both paths must be named
+						if pi.recorded == nil {
+							pi.recorded = map[string]bool{}
+						}
+						pi.recorded[kd] = true
+						if pi.recorded["param:"+rc.Params[newIdx].Name()+".spec.path"] && pi.recorded["param:"+rc.Params[oldIdx].Name()+".spec.path"] {
+							pi.collectBoth = true
+						}
 					} else {
 						pi.otherEffects = append(pi.otherEffects, "map update at "+c.pos(x))
 					}
